@@ -49,7 +49,7 @@ def record_lengths(rep, dev, tier, rng):
     sizes = sfv.run_impl(dev, [[3] + sp for specs in metas for sp in specs])
     nsmall = len(wcases) - (5 if tier == "thorough" else 3)
     impl = stages.correspondence(rep, "reclen", dev, wcases[:nsmall], "whist(record lengths)")
-    impl += stages.correspondence(rep, "reclen_big", dev, wcases[nsmall:], "whist(record lengths above 65535 words)", model=(tier == "thorough"))
+    impl += stages.correspondence(rep, "reclen_big", dev, wcases[nsmall:], "whist(record lengths above 65535 words)", model=False)   # the model writer is quadratic in the file size
     k, nfail = 0, 0
     for c, specs, r in zip(wcases, metas, impl):
         res = C.parse_whist(r)
